@@ -1,4 +1,5 @@
 import Ufo2ftModel.Props.RenderExact
+import Ufo2ftModel.Props.GoodCert
 import Ufo2ftModel.Props.Reverse
 import Ufo2ftModel.Spec.C01
 /-! Property C01 theorems. -/
@@ -143,8 +144,8 @@ theorem orderedGlyphs_mem (gs : GlyphSet) (order : List String) (h : orderedGlyp
     determinant is negative), converted to drawing commands, every coordinate rounded — same contours, same order,
     none lost or duplicated. -/
 theorem C01_outline (tol : Q) (gs pre : GlyphSet) (rank : String → Nat) (hg : Good gs rank) (hn : Named gs)
-    (hb : ∀ n, rank n ≤ gs.length) (h : preprocess [] gs = .ok pre)
-    (n : String) (g : Glyph) (hget : gs.get? n = some g) :
+    (h : preprocess [] gs = .ok pre)
+    (n : String) (g : Glyph) (hget : gs.get? n = some g) (hb : rank n ≤ gs.length) :
     cffOutline tol pre n = specOutline tol gs g := by
   unfold preprocess at h
   simp only [List.isEmpty_nil, if_true] at h
@@ -166,7 +167,7 @@ theorem C01_outline (tol : Q) (gs pre : GlyphSet) (rank : String → Nat) (hg : 
       | some g' =>
         have hc : g'.comps = [] := hflat n hmem g' hp
         have hid : Affine.id.det ≠ 0 := by simp only [Affine.id, Affine.det]; grind
-        have e := heq g' g hp hget Affine.id (gs.length + 2) hid (by have := hb n; omega)
+        have e := heq g' g hp hget Affine.id (gs.length + 2) hid (by omega)
         unfold cffOutline specOutline renderGlyph
         rw [hp]
         dsimp only
@@ -189,11 +190,25 @@ theorem nonsingularFrom_of_good (gs : GlyphSet) (rank : String → Nat) (hg : Go
 
 /-- the decidable predicate holds of the model's output -/
 theorem C01_outline_holds (tol : Q) (gs pre : GlyphSet) (rank : String → Nat) (hg : Good gs rank) (hn : Named gs)
-    (hb : ∀ n, rank n ≤ gs.length) (h : preprocess [] gs = .ok pre)
-    (n : String) (g : Glyph) (hget : gs.get? n = some g) (ops : List Op) (hops : cffOutline tol pre n = .ok ops) :
+    (h : preprocess [] gs = .ok pre)
+    (n : String) (g : Glyph) (hget : gs.get? n = some g) (hb : rank n ≤ gs.length)
+    (ops : List Op) (hops : cffOutline tol pre n = .ok ops) :
     holdsOutline true tol gs g ops = true := by
-  rw [C01_outline tol gs pre rank hg hn hb h n g hget] at hops
+  rw [C01_outline tol gs pre rank hg hn h n g hget hb] at hops
   have hns := nonsingularFrom_of_good gs rank hg (gs.length + 1) g (hg.nonsing n g hget)
   simp [holdsOutline, hops, hns]
+
+end Ufo2ft.C01
+
+namespace Ufo2ft.C01
+open Ufo2ft
+
+/-- **C01_outline from a checked certificate**: whenever the decidable well-formedness check passes (the driver evaluates it
+    on every generated font), the model's CFF outline of every glyph is the specified one. -/
+theorem C01_outline_cert (tol : Q) (gs pre : GlyphSet) (cert : List (String × Nat)) (hc : goodCert gs cert = true)
+    (h : preprocess [] gs = .ok pre) (n : String) (g : Glyph) (hget : gs.get? n = some g) :
+    cffOutline tol pre n = specOutline tol gs g := by
+  obtain ⟨hg, hn, hb⟩ := goodCert_sound gs cert hc
+  exact C01_outline tol gs pre (rankOf cert) hg hn h n g hget (hb n g hget)
 
 end Ufo2ft.C01
